@@ -347,8 +347,21 @@ def enum_read_programs(maxlen, name, workers=None):
 _MISSING = object()
 
 
-def _run_calls(line, fd, codes, offset, lax, force):
-    """Run the calls of a program on field fd of `line`; -> (events, [[value, exception]])."""
+def _content(x):
+    """For add() ("one more value for the tag"): how many values the tag holds -- a FieldArray's
+    elements, one for a single value, none for a missing tag.  (Not object identity: a refused
+    add() may already have wrapped the single value into a FieldArray of one, or have decoded an
+    encoded value while reading it -- the same value.)"""
+    if x is _MISSING:
+        return 0
+    d = getattr(x, "_data", None)
+    return len(d) if isinstance(d, list) and type(x).__name__ == "FieldArray" else 1
+
+
+def _run_calls(line, fd, codes, offset, lax, force, assign=None):
+    """Run the calls of a program on field fd of `line`; -> (events, [[value, exception]]).
+    assign: None (Set: line.set / attribute assignment by the parity of offset), or, on a header,
+    "add" / "add+dt": every Set of the program is an Add -- Multiline.add(tag, value[, datatype])."""
     f = fd["name"]
     key = fd["key"]
     evs, vals = [], []
@@ -365,6 +378,16 @@ def _run_calls(line, fd, codes, offset, lax, force):
             nset += 1
             v = mk(val)
             old = line._data.get(f, _MISSING)
+            if assign in ("add", "add+dt"):
+                before = _content(old)
+                if assign == "add":
+                    r, _, exc = guarded(lambda: line.add(f, v))
+                else:
+                    r, _, exc = guarded(lambda: line.add(f, v, fd["dt"]))
+                ev.update(k="add", c=cls, res=r, kept="T" if _content(line._data.get(f, _MISSING)) == before else "F")
+                evs.append(ev)
+                vals.append([val, exc])
+                continue
             if offset % 2 == 1:          # odd choices assign through the attribute: line.<field> = v
                 r, _, exc = guarded(lambda: setattr(line, f, v))
             else:
@@ -622,7 +645,7 @@ GPATHS = ["add", "add+version", "text", "text+version", "list", "file", "file+ve
 
 def build_gfa(docname, path, lvl, wd=None):
     gfapy = _load_gfapy()
-    doc = GDOCS[docname]
+    doc = GDOCS[docname] if docname in GDOCS else HDOCS[docname]
     lines, ver = doc["lines"], doc["version"]
     if path == "add":
         g = gfapy.Gfa(vlevel=lvl)
@@ -771,6 +794,110 @@ def check_gfa_programs(out, tier, seed, progs=None):
         out.samples.append({"gfa": [infos[k]["doc"], infos[k]["path"], cases[k]["lvl"]], "subject": infos[k]["subject"],
                             "line.vlevel": cases[k]["linelvl"], "program": infos[k]["codes"],
                             "observed": [[e["res"], e["mark"]] for e in cases[k]["ev"]]})
+    return n
+
+
+# --------------------------------------------------------------------------
+# C18 (b+): programs whose assignments are Multiline.add() calls on the header of a Gfa, on tags
+# that already have one value or several (Fields!Step, "add"), with and without the datatype argument.
+
+HDOCS = {
+    "h1.one-value": dict(version="gfa1", lines=["H\tVN:Z:1.0", "H\txx:i:1\tyy:Z:abc", "S\tA\t*"]),
+    "h1.two-values": dict(version="gfa1", lines=["H\tVN:Z:1.0", "H\txx:i:1", "H\tyy:Z:abc", "H\txx:i:2", "H\tyy:Z:de",
+                                                  "S\tA\t*"]),
+    "h2.one-value": dict(version="gfa2", lines=["H\tVN:Z:2.0\txx:i:1", "H\tyy:Z:abc", "S\ta\t4\t*"]),
+    "h1.no-value": dict(version="gfa1", lines=["H\tVN:Z:1.0", "S\tA\t*"]),
+}
+HADD_FIELDS = [("i:xi", "xx"), ("Z:xz", "yy")]
+
+
+def run_header_add_program(job):
+    """job = (docname, creation path, lvl, codes, offset, "add" | "add+dt") -> [(case, info)], one per header tag."""
+    docname, path, lvl, codes, offset, assign = job
+    out = []
+    for key, name in HADD_FIELDS:
+        r, gfa, exc = guarded(lambda: build_gfa(docname, path, lvl), limit=60.0)
+        if r != "ok":
+            raise MachineryError("cannot build %s via %s at level %d: %s" % (docname, path, lvl, exc))
+        line = gfa.header
+        fd = _gfield(key, name)
+        has = name in line.tagnames
+        if not has:
+            if assign == "add":
+                continue      # (a first add() without datatype makes a NEW tag: its datatype is the value's default)
+            fd["kind"] = "newtag"
+        text0 = project.safe_str(line)
+        evs, vals = _run_calls(line, fd, codes, offset, False, [], assign=assign)
+        out.append(({"id": 0, "lvl": lvl, "f": fd["key"], "dt": fd["dt"], "conn": True, "linelvl": line.vlevel,
+                     "origin": "text", "init": "valid" if has else "absent", "ev": evs},
+                    {"vals": vals, "doc": docname, "path": path, "subject": "header." + name, "codes": list(codes),
+                     "offset": offset, "assign": assign, "text": text0}))
+    return out
+
+
+def check_header_add_programs(out, tier, seed, progs=None):
+    rnd = random.Random(seed + 1833)
+    if progs is None:
+        progs, _ = enum_programs([field_by_key("i:xi")], 2 if tier == "quick" else 3, "fields-mc-henum")
+    # (the two tags have the same value classes but "outofrange": programs over valid / wrongtype / wrongsyntax)
+    codes = sorted({p[2] for p in progs if p[1] == "i:xi"})
+    short = [c for c in codes if len(c) <= 2]
+    longer = [c for c in codes if len(c) == 3]
+    jobs = []
+    for docname in sorted(HDOCS):
+        for path in (("add", "text", "file") if tier == "quick" else GPATHS):
+            for lvl in range(4):
+                if tier == "quick":
+                    chosen = list(_GPROG_ALWAYS) + [("set.valid", "set.wrongsyntax"), ("set.wrongtype",),
+                                                    ("set.valid", "validate")] + rnd.sample(short, 2)
+                else:
+                    chosen = short + rnd.sample(longer, min(len(longer), 60))
+                for k, c in enumerate(dict.fromkeys(chosen)):
+                    for assign in ("add", "add+dt"):
+                        jobs.append((docname, path, lvl, c, k, assign))
+    res = _pmap(run_header_add_program, jobs)
+    cases, infos = [], []
+    for lst in res:
+        for c, info in lst:
+            c["id"] = len(cases)
+            cases.append(c)
+            infos.append(info)
+    rejects, n = validate_cases("prog", cases, "fields-hadd")
+    out.add_cov(states=n, transitions=n, traces_validated_against_impl=n, header_add_program_cases=n,
+                header_add_documents=len(HDOCS))
+    groups = {}
+    for cid, (clauses, at) in sorted(rejects.items()):
+        c, i = cases[cid], infos[cid]
+        call = c["ev"][at - 1]["k"] if at else "-"
+        cls = c["ev"][at - 1]["c"] if at else "-"
+        key = (",".join(clauses), i["assign"], call)
+        g = groups.setdefault(key, dict(n=0, levels=set(), where=set(), ex=None))
+        g["n"] += 1
+        g["levels"].add(c["lvl"])
+        g["where"].add("%s/%s" % (i["doc"], i["path"]))
+        rank = (len(c["ev"]), i["doc"], i["path"], c["lvl"])
+        if g["ex"] is None or rank < g["rank"]:
+            g["ex"], g["rank"] = (c, i, at), rank
+    for key, g in sorted(groups.items()):
+        c, i, at = g["ex"]
+        how = "header.add(tag, value)" if i["assign"] == "add" else "header.add(tag, value, datatype)"
+        calls = ["%s%s -> %s%s" % (e["k"], ("(%s %s)" % (e["c"], json.dumps(v[0]))) if e["k"] == "add" else "",
+                                  e["res"], (":" + v[1]) if v[1] else "") for e, v in zip(c["ev"], i["vals"])]
+        out.violations.append(dict(
+            family=FAM, kind="hadd", clauses=key[0].split(","),
+            input="doc=%s path=%s %s program=%s via %s" % (i["doc"], i["path"], i["subject"], ",".join(i["codes"]), how),
+            api="Gfa construction + %s + get/field_to_s/str/validate" % how, levels=sorted(g["levels"]),
+            occurrences=g["n"], where=sorted(g["where"])[:12],
+            hprogram=dict(doc=i["doc"], path=i["path"], lvl=c["lvl"], codes=i["codes"], offset=i["offset"],
+                          assign=i["assign"], subject=i["subject"]),
+            what="%s: header %r of Gfa(%s via %s, vlevel=%d), %s on %s: %s; %d cases at levels %s" % (
+                key[0], i["text"], i["doc"], i["path"], c["lvl"], how, i["subject"], "; ".join(calls), g["n"],
+                sorted(g["levels"]))))
+    if cases:
+        k = len(cases) // 2
+        out.samples.append({"header of": [infos[k]["doc"], infos[k]["path"], cases[k]["lvl"]], "tag": infos[k]["subject"],
+                            "assign": infos[k]["assign"], "program": infos[k]["codes"],
+                            "observed": [[e["k"], e["res"], e["kept"]] for e in cases[k]["ev"]]})
     return n
 
 
@@ -1115,6 +1242,7 @@ def check_c18(out, tier, seed):
     out.add_cov(table_strings_checked_against_lex=check_table())
     progs = check_programs(out, tier, seed)
     check_gfa_programs(out, tier, seed, progs)
+    check_header_add_programs(out, tier, seed, progs)
     check_derived_programs(out, tier, seed, progs)
     check_levels(out, tier, seed)
     out.assumptions += [
@@ -1147,6 +1275,9 @@ DT_LINES2 = ['S\ta\t4\tACGT\txj:J:[{"k": [1, 2]}, "s"]\txb:B:S,1,300', "S\tb\t6\
              "E\te1\ta+\tb-\t0\t2\t4\t6$\t1,2\tTS:i:2", "E\te2\ta+\tb-\t0\t2\t4\t6$\t2M\txh:H:01",
              "F\ta\tx+\t0\t2\t0\t2$\t1M", "G\tg1\ta+\tb-\t10\t3", "U\tu1\ta e1 g1", "O\to1\ta+ e1+ b-",
              "X\tcustom\t1\txx:Z:a", "Y\tf1\tf2\txj:J:{\"q\": [1]}", "# gfa2 comment"]
+# custom records with 0, 1, 9, 10, 12 positional fields (the names field1.. are made by the library)
+CUSTOM_RECORDS = ["X\txx:i:1", "Y\tonly", "V\t" + "\t".join("c%d" % i for i in range(1, 10)) + "\txx:Z:nine",
+                  "W\t" + "\t".join("c%d" % i for i in range(1, 11)), "Q\t" + "\t".join("c%d" % i for i in range(1, 13)) + "\txj:J:[1]"]
 HDR_DOC = ["H\tVN:Z:1.0", "H\txx:i:1", "H\txx:i:2", 'H\txj:J:[1, 2]', 'H\txj:J:{"a": [3]}', "H\txz:Z:one",
            "S\tA\t*"]
 HDR_DOC2 = ["H\tVN:Z:1.0", "H\txx:i:1", "H\txx:i:2", "H\txz:Z:one", "H\txz:Z:two", "S\tA\t*"]
@@ -1185,10 +1316,10 @@ def clone_subjects(tier):
         for ln in lines:
             subs.append(dict(mode="line", text=ln,
                              version=cat["version"] if cat["version"] in ("gfa1", "gfa2") else None))
-    docs += [DT_LINES1, DT_LINES2, HDR_DOC, HDR_DOC2] + PLACEHOLDER_DOCS
+    docs += [DT_LINES1, DT_LINES2 + CUSTOM_RECORDS, HDR_DOC, HDR_DOC2] + PLACEHOLDER_DOCS
     for ln in DT_LINES1:
         subs.append(dict(mode="line", text=ln, version="gfa1"))
-    for ln in DT_LINES2:
+    for ln in DT_LINES2 + CUSTOM_RECORDS:
         subs.append(dict(mode="line", text=ln, version="gfa2"))
     for ln in HDR_DOC[:-1]:
         subs.append(dict(mode="line", text=ln, version=None))
@@ -1377,7 +1508,7 @@ def run_clone(job):
     ro, to, _ = guarded(lambda: str(orig))
     rc, cl, exc = guarded(lambda: orig.clone())
     case = {"id": cid, "conn": gfa is not None, "cl": rc, "lvl": int(sub.get("vlevel", 1)),
-            "o": {"res": ro, "pos": [], "tags": []}, "c": {"res": "ok", "pos": [], "tags": []},
+            "o": {"res": ro, "pos": [], "tags": [], "meta": "-"}, "c": {"res": "ok", "pos": [], "tags": [], "meta": "-"},
             "eq": "F", "eqr": "F", "isconn": "F", "gfa": "none", "steps": []}
     info = {"rt": getattr(orig, "record_type", "?"), "virtual": bool(getattr(orig, "virtual", False)),
             "text": to if ro == "ok" else "", "exc": [exc]}
@@ -1402,6 +1533,12 @@ def run_clone(job):
         case["isconn"] = _tri(r, bool(v))
         r, v, exc = guarded(lambda: cl.gfa)
         case["gfa"] = ("none" if v is None else "some") if r == "ok" else r
+        names = _meta_names(orig, cl)
+        mo, mc = json.loads(_meta(orig, names)), json.loads(_meta(cl, names))
+        for m in (mo, mc):
+            del m["text"]          # (compared field by field above: references are written as identifiers)
+        case["o"]["meta"], case["c"]["meta"] = json.dumps(mo, sort_keys=True), json.dumps(mc, sort_keys=True)
+        info["meta"] = [case["o"]["meta"], case["c"]["meta"]]
         tc0 = _text(cl)
         for code in prog:
             k, t = code.split(".")
@@ -1490,6 +1627,44 @@ def _walk(obj, path, out, depth=0):
             _walk(v, path + [["a", n]], out, depth + 1)
 
 
+def _meta(line, names=()):
+    """Everything a line says about itself besides its field values, with its written form: record
+    type, version, level, virtual, the names of the positional fields in order, the tag names in
+    order with the datatype get_datatype reports, and the datatype reported for further names
+    (tags the line does not have: a declared datatype is per-line state too).  A JSON string; two
+    such strings are only ever compared for equality."""
+    def q(f):
+        r, v, e = guarded(f)
+        return v if r == "ok" else "!" + r + ":" + e
+    tags = q(lambda: list(line.tagnames))
+    d = {"text": _text(line), "rt": q(lambda: line.record_type), "version": q(lambda: line.version),
+         "vlevel": q(lambda: line.vlevel), "virtual": q(lambda: bool(line.virtual)),
+         "pos": q(lambda: list(line.positional_fieldnames)),
+         "tags": [[t, q(lambda t=t: line.get_datatype(t))] for t in tags] if isinstance(tags, list) else tags,
+         "declared": [[n, q(lambda n=n: line.get_datatype(n))] for n in sorted(set(names))
+                      if not (isinstance(tags, list) and n in tags)]}
+    return json.dumps(d, sort_keys=True, default=str)
+
+
+def _meta_diff(a, b):
+    """For messages: the parts of two _meta renderings that differ."""
+    try:
+        x, y = json.loads(a), json.loads(b)
+        d = {k: [x.get(k), y.get(k)] for k in sorted(set(x) | set(y)) if x.get(k) != y.get(k)}
+        return "unchanged" if not d else "; ".join("%s: %s -> %s" % (k, json.dumps(v[0]), json.dumps(v[1])) for k, v in d.items())
+    except Exception:
+        return "%r -> %r" % (a, b)
+
+
+def _meta_names(*lines):
+    names = {"zz"}
+    for ln in lines:
+        r, t, _ = guarded(lambda: list(ln.tagnames))
+        if r == "ok":
+            names |= set(t)
+    return names
+
+
 def find_edits(line):
     """Every in-place edit of the value objects of line._data, and edits through the API."""
     edits = []
@@ -1502,7 +1677,13 @@ def find_edits(line):
     for tn in list(line.tagnames):
         edits.append(dict(kind="api", path=[tn], act=["set"]))
         edits.append(dict(kind="api", path=[tn], act=["delete"]))
+        # edits of the tag's METADATA: another datatype declared for it; the tag removed and made
+        # again from a value of another kind (so that it gets another default datatype)
+        edits.append(dict(kind="api", path=[tn], act=["setdt"]))
+        edits.append(dict(kind="api", path=[tn], act=["retype"]))
     edits.append(dict(kind="api", path=["zz"], act=["set"]))
+    edits.append(dict(kind="api", path=["zz"], act=["setdt"]))       # a datatype declared for a tag to come
+    edits.append(dict(kind="api", path=["zy"], act=["setstr"]))      # a new tag holding a string
     return edits
 
 
@@ -1512,6 +1693,13 @@ def apply_edit(line, ed):
         if ed["act"][0] == "delete":
             return line.delete(fn)
         cur = line._data.get(fn)
+        if ed["act"][0] == "setdt":
+            return line.set_datatype(fn, "Z" if line.get_datatype(fn) != "Z" else "J")
+        if ed["act"][0] == "retype":
+            line.delete(fn)
+            return line.set(fn, 7 if isinstance(cur, str) else "retyped")
+        if ed["act"][0] == "setstr":
+            return line.set(fn, "text")
         return line.set(fn, _repl(cur))
     obj = line._data[ed["path"][0]]
     for kind, k in ed["path"][1:]:
@@ -1556,10 +1744,13 @@ def run_edit(job):
     if r != "ok":
         return None, {"exc": exc}        # reported by the clone case of this subject
     tgt, other = (orig, cl) if target == "orig" else (cl, orig)
-    ob, tb = _text(other), _text(tgt)
+    # the other copy is observed through its written form AND its metadata (_meta), also for the
+    # names the edit touches
+    names = _meta_names(orig, cl) | ({ed["path"][0]} if ed["kind"] == "api" else set())
+    ob, tb = _meta(other, names), _text(tgt)
     gb = _text(gfa) if gfa is not None else "-"
     r, _, exc = guarded(lambda: apply_edit(tgt, ed))
-    oa, ta = _text(other), _text(tgt)
+    oa, ta = _meta(other, names), _text(tgt)
     ga = _text(gfa) if gfa is not None else "-"
     case = {"id": cid, "conn": gfa is not None, "target": target, "res": r, "ob": ob, "oa": oa, "gb": gb, "ga": ga}
     return case, {"exc": exc, "tb": tb, "ta": ta}
@@ -1567,8 +1758,11 @@ def run_edit(job):
 
 def check_c19(out, tier, seed):
     _init_worker()
-    o1 = run_mc("props", abstract_fields_for_props(), 3 if tier == "quick" else 4, "fields-mc-props19")
-    s1 = tlc.stats(o1)
+    # the statements on the specification itself are checked in the background while the cases run
+    from concurrent.futures import ThreadPoolExecutor
+    ex = ThreadPoolExecutor(max_workers=1)
+    f1 = ex.submit(run_mc, "props", abstract_fields_for_props(), 3 if tier == "quick" else 4, "fields-mc-props19",
+                   max(2, NCPU // 3))
     subs = clone_subjects(tier)
     res = _pmap(run_clone, list(enumerate(subs)))
     # a catalogue line that cannot be built on its own is not a subject
@@ -1637,7 +1831,10 @@ def check_c19(out, tier, seed):
         text = sub["text"] if sub["mode"] == "line" else _subject_text(sub)
         # one violation per (clauses, record type, connected or not, edited copy, field): the
         # catalogue lines of one record type differ only in their values
-        key = (",".join(clauses), text.split("\t")[0], sub["mode"], target, ed["path"][0], ed["kind"])
+        # (edits of the tag metadata through the API do not depend on the record type: one group per edit)
+        meta_edit = ed["kind"] == "api" and ed["act"][0] in ("setdt", "retype", "setstr") or ed["path"][0] in ("zz", "zy")
+        key = (",".join(clauses), "*" if meta_edit else text.split("\t")[0], sub["mode"], target,
+               ed["act"][0] if meta_edit else ed["path"][0], ed["kind"])
         g = groups.setdefault(key, dict(n=0, ex=None))
         g["n"] += 1
         if g["ex"] is None:
@@ -1649,8 +1846,12 @@ def check_c19(out, tier, seed):
             family=FAM, kind="edit", clauses=key[0].split(","), input=text,
             api="clone + in-place edit (%s, %s)" % ("connected" if c["conn"] else "unconnected", target),
             subject=sub, target=target, edit=ed, observed=c, exc=info["exc"], occurrences=g["n"],
-            what="%s: %r (%s) edit %s of the %s: other copy %r -> %r; gfa changed: %s (%d edits of this field of this record type)" % (
-                key[0], text, sub["mode"], json.dumps(ed), target, c["ob"], c["oa"], c["gb"] != c["ga"], g["n"])))
+            what="%s: %r (%s) edit %s of the %s: other copy %s; gfa changed: %s (%d edits of this field of this record type)" % (
+                key[0], text, sub["mode"], json.dumps(ed), target, _meta_diff(c["ob"], c["oa"]), c["gb"] != c["ga"], g["n"])))
+    # one custom tag on a line and its copy, edited in turn (kind "chist")
+    check_copies_histories(out, tier, seed, "C19")
+    s1 = tlc.stats(f1.result())          # (raises if a statement failed)
+    ex.shutdown()
     out.add_cov(states=s1[1] + n1 + n2 + srp[1], transitions=s1[0] + n1 + n2 + srp[0], spec_states_statements=s1[1],
                 traces_validated_against_impl=n1 + n2, clone_subjects=len(subs), edit_cases=len(jobs),
                 edits_that_changed_their_target=effective, record_kinds=len(rts),
@@ -1890,9 +2091,16 @@ def run_value(job):
 # (Fields.tla PART 5 c).  Carriers: the header (H), the header with the tag added twice (HH), a
 # connected segment (gS), a connected link (gL).
 
-GCARRIERS = ["H", "HH", "gS", "gL"]
+# gO2 / gU2: a GFA2 group defined on TWO lines with the same identifier: the tag is put on the line
+# that is in the Gfa, then the later line (which does not repeat the tag) arrives and the library
+# makes the merged group line, importing the tags of the earlier one.
+GCARRIERS = ["H", "HH", "gS", "gL", "gO2", "gU2"]
 GDOC = ["H\tVN:Z:1.0", "S\tA\tACGT", "S\tB\tACGT", "L\tA\t+\tB\t-\t2M"]
-_CARRIER_PREFIX = {"H": ("H\t",), "HH": ("H\t",), "gS": ("S\tA\t",), "gL": ("L\tA\t", "E\t")}
+GDOC2 = ["H\tVN:Z:2.0", "S\ta\t4\tACGT", "S\tb\t4\tACGT", "S\tc\t4\tACGT", "E\te1\ta+\tb+\t2\t4$\t0\t2\t2M",
+         "E\te2\tb+\tc+\t2\t4$\t0\t2\t2M", "O\to\ta+ b+", "U\tu\ta b"]
+GLATER = {"gO2": ("o", "O\to\tc+"), "gU2": ("u", "U\tu\tc")}
+_CARRIER_PREFIX = {"H": ("H\t",), "HH": ("H\t",), "gS": ("S\tA\t",), "gL": ("L\tA\t", "E\t"),
+                   "gO2": ("O\to\t", "P\to\t"), "gU2": ("U\tu\t",)}
 
 
 def _same_value(a, b):
@@ -1906,13 +2114,13 @@ def _same_value(a, b):
     return bool(a == b)
 
 
-def _occurrences(text, carrier, tag):
-    """The written forms of the tag in the lines of the carrier's record within text, and whether
-    one of these lines carries the INVALID remark."""
+def _occurrences(text, carrier, tag, single=False):
+    """The written forms of the tag in the lines of the carrier's record within text (single: the
+    text is one line, the carrier's or one made from it), and whether the INVALID remark occurs."""
     occ, mark = [], False
     pre = _CARRIER_PREFIX[carrier]
     for ln in text.split("\n"):
-        if not ln.startswith(pre):
+        if not single and not ln.startswith(pre):
             continue
         f = ln.split("\t")
         occ += [x for x in f[1:] if x.startswith(tag + ":")]
@@ -1926,6 +2134,8 @@ def _carrier_of(gfa, carrier):
         return gfa.header
     if carrier == "gS":
         return gfa.segment("A")
+    if carrier in GLATER:
+        return gfa.line(GLATER[carrier][0])
     ls = [x for x in gfa.lines if x.record_type in ("L", "E") and not x.virtual]
     return ls[0]
 
@@ -1950,6 +2160,22 @@ def _gfa_write_paths(gfa, line, carrier, wd):
              ("to_gfa2_s", lambda: gfa.to_gfa2_s(), "gfa"),
              ("to_gfa2", lambda: str(gfa.to_gfa2()), "gfa"),
              ("clone", lambda: str(line.clone()), "line")]
+    if carrier in GLATER:
+        # a GFA2 document: the other version is GFA1 (an O group becomes a P line; a U group has no
+        # GFA1 counterpart)
+        paths = [x for x in paths if x[0] != "to_gfa2"]
+        if carrier == "gU2":
+            paths = [x for x in paths if x[0] != "to_gfa1_s"]
+        else:
+            paths.append(("to_gfa1", lambda: str(gfa.to_gfa1()), "gfa"))
+    if carrier == "gL":
+        paths.append(("complement", lambda: str(line.complement()), "line"))
+    if carrier == "gS":
+        # last (it changes the Gfa): the copy made by multiply()
+        def multiplied():
+            gfa.multiply("A", 2)
+            return str([x for x in gfa.segments if x.name not in ("A", "B")][0])
+        paths.append(("multiply", multiplied, "line"))
     if carrier in ("H", "HH"):
         paths.insert(3, ("gfa.headers", lambda: "\n".join(str(x) for x in gfa.headers), "gfa"))
     if carrier == "HH":
@@ -1965,7 +2191,7 @@ def run_gvalue(job):
     gfapy = _load_gfapy()
     tag = "xx"
     exc = []
-    r, gfa, e = guarded(lambda: gfapy.Gfa(list(GDOC), vlevel=lvl))
+    r, gfa, e = guarded(lambda: gfapy.Gfa(list(GDOC2 if carrier in GLATER else GDOC), vlevel=lvl))
     if r != "ok":
         raise MachineryError("cannot build the carrier document at level %d: %s" % (lvl, e))
     line = _carrier_of(gfa, carrier)
@@ -1999,10 +2225,16 @@ def run_gvalue(job):
         case["add2"] = r
         if r == "ok":
             case["nadd"] = 2
+    if carrier in GLATER:
+        # the later line of the group arrives; the carrier is the merged group line
+        r, _, e = guarded(lambda: gfa.add_line(GLATER[carrier][1]))
+        exc.append(e)
+        case["add2"] = r
+        line = _carrier_of(gfa, carrier)
     assigned = v if case["nadd"] == 1 else [v, v]
     r, dt, e = guarded(lambda: line.get_datatype(tag))
     exc.append(e)
-    case["dt"] = dt if r == "ok" else "!" + r
+    case["dt"] = ("-" if dt is None else str(dt)) if r == "ok" else "!" + r
     r, _, e = guarded(lambda: line.validate_field(tag))
     exc.append(e)
     case["vf"] = r
@@ -2055,7 +2287,7 @@ def run_gvalue(job):
         if r != "ok":
             obs = [{"w": r, "wchars": [], "s": r, "mark": False, "rb": empty_rb, "n": 0}]
         else:
-            occ, mark = _occurrences(text, carrier, tag)
+            occ, mark = _occurrences(text, carrier, tag, single=(how_parse == "line"))
             rb = readback(text, how_parse) if not mark else empty_rb
             if mark or not occ:
                 obs = [{"w": "Error" if mark else "ok", "wchars": [], "s": "ok", "mark": mark, "rb": rb, "n": len(occ)}]
@@ -2198,6 +2430,146 @@ def run_history(job):
             "steps": steps}, {"exc": excs, "text": project.safe_str(line)}
 
 
+# ---- histories of one custom tag on TWO lines: a line and a copy the library made of it (clone(),
+# or the segment made by multiply()).  Every call acts on one of the two; after every call BOTH
+# are observed.  TraceFields (kind "chist") keeps one Fields!HState per line: a line's tag changes
+# by the calls on that line only.
+
+COPY_HOWS = ["clone", "clone.conn", "multiply"]
+
+
+def run_copies_history(job):
+    cid, lvl, init, ops, how = job
+    gfapy = _load_gfapy()
+    hi = HINITS[init]
+    text = "S\tA\t*" + ("\t" + hi["text"] if hi["text"] else "")
+    if how == "clone":
+        line = gfapy.Line(text, vlevel=lvl)
+    else:
+        gfa = gfapy.Gfa(vlevel=lvl, version="gfa1")
+        for ln in (text, "S\tB\t*", "L\tA\t+\tB\t-\t*"):
+            gfa.add_line(ln)
+        line = gfa.segment("A")
+    if how == "multiply":
+        r, _, e = guarded(lambda: gfa.multiply("A", 2))
+        if r != "ok":
+            raise MachineryError("multiply failed: " + e)
+        copy = [x for x in gfa.segments if x.name not in ("A", "B")][0]
+    else:
+        r, copy, e = guarded(lambda: line.clone())
+        if r != "ok":
+            raise MachineryError("clone failed: " + e)
+    tag = "xx"
+    steps, excs = [], []
+
+    def both(tgt, assigned, r):
+        oo, e1 = _observe_tag(gfapy, line, tag, lvl, assigned if tgt == "orig" and r == "ok" else None)
+        oc, e2 = _observe_tag(gfapy, copy, tag, lvl, assigned if tgt == "copy" and r == "ok" else None)
+        oo["set"] = r if tgt == "orig" else "ok"
+        oc["set"] = r if tgt == "copy" else "ok"
+        return oo, oc, e1 + e2
+    oo, oc, ex = both("orig", None, "ok")
+    steps.append({"op": {"k": "none", "v": NOVAL, "t": "-"}, "tgt": "orig", "oo": oo, "oc": oc})
+    excs.append(ex)
+    for k, a, tgt in ops:
+        x = line if tgt == "orig" else copy
+        assigned = None
+        op = {"k": k, "v": NOVAL, "t": "-"}
+        if k == "set":
+            assigned = mk(HVALS[a]["py"])
+            op["v"] = HVALS[a]["v"]
+            r, _, e = guarded(lambda: x.set(tag, assigned))
+        elif k == "delete":
+            r, _, e = guarded(lambda: x.delete(tag))
+        elif k == "setnone":
+            r, _, e = guarded(lambda: x.set(tag, None))
+        elif k == "setdt":
+            op["t"] = a
+            r, _, e = guarded(lambda: x.set_datatype(tag, a))
+        else:
+            raise MachineryError("unknown history op " + k)
+        oo, oc, ex = both(tgt, assigned, r)
+        steps.append({"op": op, "tgt": tgt, "oo": oo, "oc": oc})
+        excs.append([e] + ex)
+    return {"id": cid, "lvl": lvl, "init": {"present": hi["present"], "dt": hi["dt"], "v": hi["v"]},
+            "steps": steps}, {"exc": excs, "texts": [project.safe_str(line), project.safe_str(copy)]}
+
+
+def copies_history_jobs(tier, seed, prop="C20"):
+    alpha = [(k, a, t) for k, a in history_alphabet() for t in ("orig", "copy")]
+    seqs = [(x,) for x in alpha if x[0] in ("set", "setdt")]
+    for t in itertools.product(alpha, repeat=2):
+        if any(k in ("set", "setdt") for k, _, _ in t):
+            seqs.append(t)
+    if tier != "quick":
+        rnd = random.Random(seed + 1920)
+        three = [t for t in itertools.product(alpha, repeat=3) if t[0][2] != t[1][2] or t[1][2] != t[2][2]]
+        seqs += rnd.sample(three, 1500)
+    jobs = []
+    if tier == "quick":
+        # (the quick tiers of the two properties share the ways of copying between them)
+        plan = [(1, "clone"), (3, "clone.conn")] if prop == "C19" else [(1, "multiply"), (2, "clone.conn")]
+        inits = ["new", "i", "A", "J", "B"]
+    else:
+        plan = [(l, h) for l in ((1, 3) if prop == "C19" else (1, 2)) for h in COPY_HOWS]
+        inits = sorted(HINITS)
+    for lvl, how in plan:
+        for init in inits:
+            for t in seqs:
+                jobs.append((len(jobs), lvl, init, t, how))
+    return jobs
+
+
+def check_copies_histories(out, tier, seed, prop):
+    jobs = copies_history_jobs(tier, seed, prop)
+    res = _pmap(run_copies_history, jobs)
+    rejects, n = validate_cases("chist", [r[0] for r in res], "fields-chist")
+    groups = {}
+    for cid, (clauses, at) in sorted(rejects.items()):
+        c, info = res[cid]
+        _, lvl, init, ops, how = jobs[cid]
+        op = ops[at - 2] if at >= 2 else ("cloning", "", "")
+        key = (",".join(clauses), how, op[0])
+        g = groups.setdefault(key, dict(n=0, levels=set(), ex=None))
+        g["n"] += 1
+        g["levels"].add(lvl)
+        rank = (at, len(ops), lvl, str(ops))
+        if g["ex"] is None or rank < g["rank"]:
+            g["ex"], g["rank"] = (cid, at), rank
+    for key, g in sorted(groups.items()):
+        cid, at = g["ex"]
+        c, info = res[cid]
+        _, lvl, init, ops, how = jobs[cid]
+        calls = []
+        for (k, a, tgt), st in zip((("made the copy", "", "orig"),) + tuple(ops[:at - 1]), c["steps"]):
+            calls.append("%s %s(%s) -> original: datatype %s written %r%s; copy: datatype %s written %r%s" % (
+                "" if k == "made the copy" else "on the " + ("original" if tgt == "orig" else "copy"), k,
+                json.dumps(HVALS[a]["py"]) if k == "set" else a,
+                st["oo"]["dt"], "".join(st["oo"]["wchars"]), " [# INVALID]" if st["oo"]["mark"] else "",
+                st["oc"]["dt"], "".join(st["oc"]["wchars"]), " [# INVALID]" if st["oc"]["mark"] else ""))
+        out.violations.append(dict(
+            family=FAM, kind="chist", clauses=key[0].split(","),
+            input="tag xx (%s) on S line A and its copy (%s): %s" % (
+                init if init == "new" else HINITS[init]["text"], how,
+                "; ".join("%s(%s) on %s" % (k, a, t) for k, a, t in ops[:max(at - 1, 0)])),
+            api="Line.clone / Gfa.multiply + Line.set/delete/set_datatype on either line", levels=sorted(g["levels"]),
+            occurrences=g["n"], chistory=dict(lvl=lvl, init=init, ops=[list(x) for x in ops], how=how), rejected_call=at,
+            what="%s: xx (%s), copy by %s, vlevel %s: %s; %d histories" % (
+                key[0], init, how, sorted(g["levels"]), "; ".join(calls), g["n"])))
+    nontrivial = sum(1 for c, i in res if len(c["steps"]) >= 3 and c["steps"][1]["tgt"] != c["steps"][2]["tgt"])
+    if prop == "C20":
+        out.add_cov(evaluations=len(jobs), distinct_nontrivial=nontrivial, cases_validated_by_tlc=n)
+    else:
+        out.add_cov(states=n, transitions=n, traces_validated_against_impl=n)
+    out.add_cov(two_line_tag_histories=len(jobs), two_line_tag_histories_touching_both_lines=nontrivial)
+    if res:
+        k = len(res) // 3
+        c, i = res[k]
+        out.samples.append({"two-line history": [list(x) for x in jobs[k][3]], "init": jobs[k][2], "copy by": jobs[k][4],
+                            "vlevel": jobs[k][1], "datatypes original/copy": [[st["oo"]["dt"], st["oc"]["dt"]] for st in c["steps"]]})
+    return n
+
+
 def history_jobs(tier, seed):
     alpha = history_alphabet()
     seqs = []
@@ -2288,14 +2660,20 @@ def gvalue_jobs(tier, seed):
                 if tier == "quick":
                     if carrier == "H":
                         lvls = [k % 4, (k + 2 + (k // 4) % 2) % 4]
+                    elif carrier in GLATER:
+                        # (not level 0: merging reads the tags of the earlier line, and a read at level 0
+                        # decodes without validating -- Fields!Step, "get")
+                        lvls = [1 + (k + ci) % 3]
                     elif carrier == "HH":
-                        lvls = [(k + 1) % 4]
+                        lvls = [(k + ci) % 4]
                     else:
                         lvls = [(k + ci) % 4] if (k + ci) % 2 == 0 else []
                 elif carrier == "H":
                     lvls = [0, 1, 2, 3]
                 elif carrier == "HH":
                     lvls = [1 + k % 2, 3 * (k % 2)]
+                elif carrier in GLATER:
+                    lvls = [1 + k % 2, 3 - k % 2] if k % 2 == 0 else [2, 3]
                 else:
                     lvls = [k % 2, 2 + (k + ci) % 2]
                 for lvl in lvls:
@@ -2345,7 +2723,8 @@ def check_gvalues(out, tier, seed):
             exc=[e for e in info["exc"] if e],
             what="%s: xx(%s) = %s on %s of a Gfa, written through %s at vlevel %s (%d cases like this) -> %s" % (
                 key[0], key[2], pyv, {"H": "the header", "HH": "the header (tag added twice)", "gS": "a connected segment",
-                                      "gL": "a connected link"}[key[3]],
+                                      "gL": "a connected link", "gO2": "an O group defined on two lines",
+                                      "gU2": "a U group defined on two lines"}[key[3]],
                 "/".join(sorted(set(vias))), sorted(g["levels"]), g["n"], json.dumps(obs))))
     out.add_cov(gfa_tag_cases=len(jobs), gfa_tag_cases_written_and_read_back_through_every_path=len(nontrivial),
                 gfa_write_path_observations=npaths, gfa_tag_carriers=len(GCARRIERS))
@@ -2362,6 +2741,7 @@ def check_c20(out, tier, seed):
     _check_values(out, tier, seed)
     check_gvalues(out, tier, seed)
     check_histories(out, tier, seed)
+    check_copies_histories(out, tier, seed, "C20")
     out.cov["rule"] = (out.cov["rule"] + "; tag history = (initial tag, sequence of set/delete/set(None)/"
                        "set_datatype calls, vlevel, stand-alone or connected line), judged after every call; "
                        "non-trivial = at least two calls after which the tag was written and parsed back")
@@ -2462,6 +2842,15 @@ def replay(prop, v, path):
             print("  %-8s %-12s %s -> %s%s%s" % (e["k"], e["c"], json.dumps(val) if val else "", e["res"],
                                                " (" + exc + ")" if exc else "", " [# INVALID]" if e["mark"] else ""))
         rej, _ = validate_cases("prog", [case], "fields-replay")
+    elif kind == "hadd":
+        p = v["hprogram"]
+        lst = run_header_add_program((p["doc"], p["path"], p["lvl"], tuple(p["codes"]), p["offset"], p["assign"]))
+        case, info = [(c, i) for c, i in lst if i["subject"] == p["subject"]][0]
+        print("  header %r of %s via %s at vlevel %d, %s" % (info["text"], p["doc"], p["path"], p["lvl"], p["assign"]))
+        for e, (val, exc) in zip(case["ev"], info["vals"]):
+            print("  %-8s %-12s %s -> %s%s%s" % (e["k"], e["c"], json.dumps(val) if val else "", e["res"],
+                                               " (" + exc + ")" if exc else "", " [# INVALID]" if e["mark"] else ""))
+        rej, _ = validate_cases("prog", [case], "fields-replay")
     elif kind == "dprog":
         p = v["dprogram"]
         lst = run_derived_program((p["doc"], p["op"], p["lvl"], tuple(p["codes"]), p["offset"], p.get("seqfield", False)))
@@ -2502,6 +2891,14 @@ def replay(prop, v, path):
         print("  other copy: %r -> %r" % (case["ob"], case["oa"]))
         print("  gfa changed: %s" % (case["gb"] != case["ga"]))
         rej, _ = validate_cases("edit", [case], "fields-replay")
+    elif kind == "chist":
+        h = v["chistory"]
+        case, info = run_copies_history((0, h["lvl"], h["init"], tuple(tuple(x) for x in h["ops"]), h["how"]))
+        for (k, a, t), st in zip([("copy made", "", "")] + [tuple(x) for x in h["ops"]], case["steps"]):
+            print("  %-9s %-8s %-5s original: %s %r%s  copy: %s %r%s" % (
+                k, a, t, st["oo"]["dt"], "".join(st["oo"]["wchars"]), " [# INVALID]" if st["oo"]["mark"] else "",
+                st["oc"]["dt"], "".join(st["oc"]["wchars"]), " [# INVALID]" if st["oc"]["mark"] else ""))
+        rej, _ = validate_cases("chist", [case], "fields-replay")
     elif kind == "hist":
         h = v["history"]
         case, info = run_history((0, h["lvl"], h["init"], tuple(tuple(x) for x in h["ops"]), h["connected"]))
@@ -2687,6 +3084,40 @@ def selftest(mutant=True):
     _expect("lvl", d, "C18.level-dependence", "lvl: pretend multiply is refused at level 3", fails)
     d = copy.deepcopy(c); d["r"][1]["lines"] = d["r"][1]["lines"][:-1]
     _expect("lvl", d, "C18.level-dependence", "lvl: pretend level 1 wrote one line less after multiply", fails)
+    # ---- round 3: metadata of the copies, two-line tag histories, group carriers, header add()
+    sub = dict(mode="line", text=CUSTOM_RECORDS[3], version="gfa2")
+    c, _ = run_clone((0, sub))
+    _expect("clone", c, None, "clone: custom record with 10 positional fields", fails)
+    d = copy.deepcopy(c); d["c"]["pos"][2], d["c"]["pos"][10] = d["c"]["pos"][10], d["c"]["pos"][2]
+    _expect("clone", d, "C19.text-differs", "clone: pretend the clone permuted the columns", fails)
+    d = copy.deepcopy(c); d["c"]["meta"] = d["c"]["meta"].replace('"field10", ', "").replace('"field1", ', '"field1", "field10", ')
+    _expect("clone", d, "C19.metadata-differs", "clone: pretend the clone lists the field names in another order", fails)
+    ops = (("set", "int", "orig"), ("set", "str", "copy"))
+    c, _ = run_copies_history((0, 1, "new", ops, "clone"))
+    _expect("chist", c, None, "chist: new tag 12 on the original, 'hello' on the clone", fails)
+    d = copy.deepcopy(c); d["steps"][1]["oc"]["dt"] = "i"
+    _expect("chist", d, "C19.shared-state", "chist: pretend the clone got a datatype from the original's edit", fails)
+    d = copy.deepcopy(c); d["steps"][2]["oc"].update(dt="i", w="Error", wchars=[], mark=True)
+    d["steps"][2]["oc"]["rb"] = {"res": "-", "dt": "-", "eq": "-", "eqv": "-"}
+    _expect("chist", d, "C20.datatype", "chist: pretend the clone's new tag took the original's datatype", fails)
+    c, _ = run_copies_history((0, 1, "J", (("setdt", "B", "orig"),), "multiply"))
+    _expect("chist", c, None, "chist: datatype of the original changed after multiply", fails)
+    d = copy.deepcopy(c); d["steps"][1]["oc"]["dt"] = "B"
+    _expect("chist", d, "C19.shared-state", "chist: pretend the multiplied copy changed datatype too", fails)
+    c, _ = run_gvalue((0, 2, "A", v_str("c"), "gU2", 0))
+    _expect("gval", c, None, "gval: A tag on the first line of a two-line U group", fails)
+    d = copy.deepcopy(c); d["wchars"] = list("xx:Z:c"); d["dt"] = "Z"
+    _expect("gval", d, "C20.datatype", "gval: pretend the merged group re-inferred the datatype", fails)
+    lst = run_header_add_program(("h1.one-value", "text", 3, ("set.wrongsyntax", "validate"), 0, "add"))
+    c = [x for x, i in lst if i["subject"] == "header.xx"][0]
+    _expect("prog", c, None, "hadd: invalid add() at level 3 refused", fails)
+    d = copy.deepcopy(c); d["ev"][0].update(res="ok", kept="F")
+    _expect("prog", d, "C18.level3-not-at-set", "hadd: pretend level 3 accepted the invalid add()", fails)
+    lst = run_header_add_program(("h1.two-values", "add", 1, ("set.valid", "str"), 0, "add+dt"))
+    c = [x for x, i in lst if i["subject"] == "header.yy"][0]
+    _expect("prog", c, None, "hadd: valid add() with datatype", fails)
+    d = copy.deepcopy(c); d["ev"][0].update(res="Error", kept="T")
+    _expect("prog", d, "C18.valid-rejected", "hadd: pretend the valid add() was refused", fails)
     # ---- a seeded mutant of gfapy: clone copies lists shallowly (survives the test-suite)
     if mutant:
         import shutil, subprocess, tempfile
